@@ -124,7 +124,8 @@ def truthy(v):
     if isinstance(ty, TRec):
         return z3.BoolVal(True)
     if isinstance(ty, TDict):
-        raise OutOfSubset('truthiness of dict')
+        k = fresh('k', ty.k.sort())
+        return z3.Exists([k], z3.Select(ty.has(v.t), k))
     raise OutOfSubset(f'truthy {ty}')
 
 
@@ -362,7 +363,16 @@ class Evaluator:
         if isinstance(op, ast.Mod):
             if ty == INT:
                 ctx.exc('ZeroDivisionError', y == 0)
-                return V(INT, x - y * py_floordiv(x, y))
+                r = x - y * py_floordiv(x, y)
+                if not z3.is_int_value(z3.simplify(y)):
+                    # modulus by a symbolic positive divisor is non-linear for the solver: state the consequences of the
+                    # definition of Python's % for the quotient values -1, 0, 1 and the range of the result
+                    pos = y > 0
+                    ctx.assume(z3.Implies(pos, z3.And(0 <= r, r < y)))
+                    ctx.assume(z3.Implies(z3.And(pos, 0 <= x, x < y), r == x))
+                    ctx.assume(z3.Implies(z3.And(pos, -y <= x, x < 0), r == x + y))
+                    ctx.assume(z3.Implies(z3.And(pos, y <= x, x < 2 * y), r == x - y))
+                return V(INT, r)
         if isinstance(op, ast.Pow):
             if isinstance(y, z3.ExprRef) and z3.is_int_value(y) and y.as_long() >= 0:
                 r = z3.IntVal(1) if ty == INT else z3.RealVal(1)
@@ -578,6 +588,17 @@ class Evaluator:
 
     def slice(self, base, sl, ctx):
         if sl.step is not None:
+            if base.ty == STR and sl.lower is None and sl.upper is None and isinstance(sl.step, ast.UnaryOp) \
+                    and isinstance(sl.step.op, ast.USub) and isinstance(sl.step.operand, ast.Constant) and sl.step.operand.value == 1:
+                # s[::-1]: the reversed string, characterised per position
+                f = z3.Function('str_rev', z3.StringSort(), z3.StringSort())
+                r = f(base.t)
+                k = fresh('k', z3.IntSort())
+                n = z3.Length(base.t)
+                ctx.assume(z3.Length(r) == n)
+                ctx.assume(z3.ForAll([k], z3.Implies(z3.And(0 <= k, k < n),
+                                                     z3.SubString(r, k, 1) == z3.SubString(base.t, n - 1 - k, 1))))
+                return V(STR, r)
             raise OutOfSubset('slice step')
         n = z3.Length(base.t) if base.ty == STR else list_len(base)
         lo = z3.IntVal(0) if sl.lower is None else clamp_index(to_int(self.unwrap_opt(self.ev(sl.lower, ctx), ctx)), n)
